@@ -45,6 +45,25 @@ def is_dyadic(x, maxbits=20):
     return d & (d - 1) == 0 and d <= (1 << maxbits)
 
 
+def input_variant(X, L, i):
+    """the same data / labels in a different representation (dtype, memory layout, view, 1-d)"""
+    i = i % 6
+    n, p = X.shape
+    if i == 1:
+        return np.asfortranarray(X.copy()), L.astype(np.int32), "fortran-order+int32-labels"
+    if i == 2 and np.all(X == np.rint(X)):
+        return X.astype(np.int64), L.copy(), "int64-data"
+    if i == 3:
+        big = np.zeros((2 * n, p + 1))
+        big[::2, :p] = X
+        return big[::2, :p], L.astype(float), "strided-view+float-labels"
+    if i == 4 and p == 1:
+        return X[:, 0].copy(), L.copy(), "1-d-data"
+    if i == 5:
+        return (X.astype(np.float32), L.copy(), "float32-data") if np.all(X.astype(np.float32) == X) else (X.copy(), L.copy(), "c-order-float64")
+    return X.copy(), L.copy(), "c-order-float64"
+
+
 def wcss(X, z, C):
     return sum(sum((F(a) - F(b)) ** 2 for a, b in zip(X[i], C[z[i]])) for i in range(len(X)))
 
@@ -92,6 +111,23 @@ def kmeans_cases(ck):
             lab[rng.integers(0, n)] = k - 1
         delta = [F(0), F(1, 10000), F(1, 4), F(1, 8)][int(rng.integers(0, 4))]
         groups.append((X, k, [int(v) for v in lab], delta))
+    # runs that stop on the displacement tolerance with a last move that is small but NOT zero: tolerance large
+    # w.r.t. the moves (delta up to 4), or the variance inflated by a far-away group of items (default delta)
+    for t in range(ck.n(90, 600)):
+        n = int(rng.integers(3, 11))
+        p = int(rng.integers(1, 4))
+        X = rng.integers(0, 9, size=(n, p))
+        k = int(rng.integers(2, min(n, 5) + 1))
+        if t % 3 == 0:                        # far-away group
+            m = int(rng.integers(1, 4))
+            X = np.vstack([X, np.full((m, p), int(rng.choice([200, 1000])))])
+            n += m
+            k = min(k + 1, n)
+            delta = [F(1, 10000), F(1, 1024)][int(rng.integers(0, 2))]
+        else:
+            delta = [F(1, 16), F(1, 4), F(1), F(4)][int(rng.integers(0, 4))]
+        lab = rng.integers(0, k, size=n)
+        groups.append((X, k, [int(v) for v in lab], delta))
     return groups
 
 
@@ -115,6 +151,7 @@ def kmeans_section(ck):
     groups = kmeans_cases(ck)
     nfloat = 0
     ninf = 0
+    nstop = nstop_nz = 0
     maxiters = range(1, 7)
     for gi, (Xi, k, lab, delta) in enumerate(groups):
         n, p = Xi.shape
@@ -188,6 +225,14 @@ def kmeans_section(ck):
                 ("kmeans", r2, None))
         if runs is None:
             continue
+        cprev = c0l
+        for mi, Cl, zl, J in runs:                      # first iteration that meets the stopping rule (on the code as it should be)
+            moved = sum((a - b) ** 2 for ra, rb in zip(cprev, Cl) for a, b in zip(ra, rb))
+            if moved < thr_exact:
+                nstop += 1
+                nstop_nz += moved > 0
+                break
+            cprev = Cl
         if gi < 3:
             ck.sample({"call": "_kmeans(X, k, Labels, maxiter=3, delta) on Fraction arrays", "X": Xl, "k": k, "Labels": lab,
                        "delta": str(delta), "centres": [[str(v) for v in r] for r in runs[2][1]], "labels": runs[2][2],
@@ -202,7 +247,12 @@ def kmeans_section(ck):
             for mi, Cl, zl, J in runs:
                 for kk, mm, dd in ((k, mi, float(delta)),) + (((k + n, mi, float(delta)),) if k == n else ()) + \
                         (((0, mi, float(delta)),) if k == 1 else ()):
-                    C2, z2, J2 = U.kmeans(Xd.copy(), kk, L.copy(), maxiter=mm, delta=dd)
+                    Xin, Lin, rtag = input_variant(Xd, L, gi + mi)
+                    Xkeep, Lkeep = Xin.copy(), Lin.copy()
+                    C2, z2, J2 = U.kmeans(Xin, kk, Lin, maxiter=mm, delta=dd)
+                    if not (np.array_equal(Xin, Xkeep) and np.array_equal(Lin, Lkeep)):
+                        ck.fail("kmeans-wrapper/mutates-input/%s" % rtag, "kmeans() changed its X or Labels argument",
+                                dict(rep, maxiter=mm, representation=rtag))
                     nfloat += 1
                     ck.count(("kmf", Xl, kk, tuple(lab), str(delta), mm), nontrivial=n > 1, bucket="kmeans:float-wrapper")
                     C2l = [[F(float(v)) for v in r] for r in C2]
@@ -260,7 +310,7 @@ def kmeans_section(ck):
             if not ok:
                 ck.fail("%s/model-vs-impl" % kind, "Gallina model and implementation disagree (%s): %s" % (kind, str(rep)[:300]), rep)
     ck.section("kmeans", groups=len(groups), maxiters=list(maxiters), model_cases=len(terms), float_wrapper_cases=nfloat,
-               returned_J_inf=ninf)
+               returned_J_inf=ninf, groups_stopping_on_tolerance=nstop, of_which_with_nonzero_last_move=int(nstop_nz))
 
 
 # ------------------------------------------------------------------ float implementation under stress
@@ -366,18 +416,23 @@ def float_stress_section(ck):
         p = int(rng.integers(1, 4))
         k = int(rng.integers(1, min(n, 4) + 1))
         X, scales, tag = stress_matrix(rng, n, p, offset=float(rng.choice([0.0, 1e6, 1e8, 1.7e9])))
+        dl = [0.0, 1e-4, 0.25, 1.0][t % 4]              # tolerance stops with a non-zero last move included
+        if t % 3 == 0 and n >= 3:                        # a far-away group inflates the variance
+            X[-1] = X[-1] + np.array([sc * 4096.0 for off, sc in scales])
+            tag += "+far-group"
+        tag += "+delta>0" if dl > 0 else ""
         lab = rng.integers(0, k, size=n)
         Xe = [[F(float(v)) for v in r] for r in X]
         maxabs = float(np.abs(X).max()) + 1.0
         spread = max(float(X[:, j].max() - X[:, j].min()) for j in range(p)) + 1.0
         slack = F(64 * n * p * spread * EPS * maxabs)
-        rep = {"X": [[repr(float(v)) for v in r] for r in X], "k": k, "Labels": [int(v) for v in lab]}
+        rep = {"X": [[repr(float(v)) for v in r] for r in X], "k": k, "Labels": [int(v) for v in lab], "delta": dl}
         ck.count(("fkm", rep["X"], k, tuple(rep["Labels"])), bucket="float-kmeans:%s" % tag)
         prev = None
         res = {}
         for mi in (1, 2, 3, 50, 51):
             try:
-                C, z, J = U.kmeans(X.copy(), k, lab.copy(), maxiter=mi, delta=0.0)
+                C, z, J = U.kmeans(X.copy(), k, lab.copy(), maxiter=mi, delta=dl)
             except Exception as e:  # noqa
                 ck.fail("kmeans/float/raises", "kmeans raised %s: %s" % (type(e).__name__, e), dict(rep, maxiter=mi))
                 break
@@ -399,7 +454,7 @@ def float_stress_section(ck):
                         % (mi, float(Wm), float(prev[1]), prev[0]), r2)
             prev = (mi, Wm)
             res[mi] = (z, C, r2)
-        if 50 in res and 51 in res and res[50][0] == res[51][0]:
+        if dl == 0.0 and 50 in res and 51 in res and res[50][0] == res[51][0]:
             z, C, r2 = res[50]                           # a fixed point of the iteration: labels = nearest returned centre
             for i in range(n):
                 d = [exact_d2(X[i], C[q]) for q in range(k)]
@@ -434,7 +489,8 @@ def float_stress_section(ck):
             with warnings.catch_warnings():
                 warnings.simplefilter("ignore")
                 try:
-                    tt = getattr(hc, fn)(WeightedGraph(n, np.array(Ed, dtype=np.int_), np.ones(len(Ed))), feat.copy())
+                    Wg = [np.ones(len(Ed)), np.zeros(len(Ed)), np.array([float(a - b) for a, b in Ed])][t % 3]
+                    tt = getattr(hc, fn)(WeightedGraph(n, np.array(Ed, dtype=np.int_), Wg), feat.copy())
                 except Exception as e:  # noqa
                     ck.fail("%s/raises/%s%s" % (fn, type(e).__name__, suffix), "%s raised %s: %s" % (fn, type(e).__name__, e), rep)
                     continue
@@ -728,6 +784,7 @@ def cut_oracles(ck, tag, t, n, E, parents, height, leaves, rep, terms_add, exact
                 return False
         return True
     sh = sorted(hs)
+    first_split = {}
     for k in range(1, n + 1):
         r2 = dict(rep, k=k)
         expected = max(k, c)
@@ -744,6 +801,7 @@ def cut_oracles(ck, tag, t, n, E, parents, height, leaves, rep, terms_add, exact
         if exact:
             terms_add("onats_eqb (split %s %s %s) %s" % (P, H, cnat(k), "None" if u is None else "(Some %s)" % cnatl(u)),
                       ("split", r2))
+        first_split[k] = u
         if u is None:
             continue
         if len(u) != n:
@@ -780,6 +838,15 @@ def cut_oracles(ck, tag, t, n, E, parents, height, leaves, rep, terms_add, exact
         if canon(top) != u:
             ck.fail("%s/partition/not-the-cut-at-height" % tag, "partition(%s) = %s, cut of the tree = %s" % (th, u, canon(top)), r2)
         check_clusters("partition", u, r2)
+    # the forest object is not consumed by the cuts: the same split again, after all the partitions
+    for k in (1, min(2, n), n):
+        if first_split.get(k) is not None:
+            try:
+                again = canon(t.split(k))
+            except Exception as e:  # noqa
+                again = "raised %s" % type(e).__name__
+            if again != first_split[k]:
+                ck.fail("%s/split/second-call-differs" % tag, "split(%d) = %s, later on the same object %s" % (k, first_split[k], again), dict(rep, k=k))
 
 
 class _NpProxy(object):
@@ -813,6 +880,7 @@ def hierarchical_section(ck):
         terms.append(term)
         meta.append(m)
     cases = graph_cases(ck)
+    rng_w = ck.rng("graph-weights")
     n_exact = 0
     n_raise = 0
     for ci, (name, n, E, feat0) in enumerate(cases):
@@ -836,26 +904,62 @@ def hierarchical_section(ck):
             Ed = [e for ab in E for e in (ab[::-1], ab)][::-1]
         elif ci % 3 == 2:
             Ed = Ed + [(b, a) for a, b in E[::2]]
+        # the constraint graph is "a topological graph essentially": its weights must not matter.  Weight classes:
+        # unit, zero, antisymmetric (w_ij = -w_ji), negative, euclidean distance between the items' features (zero for
+        # duplicated items), random; edge array as int64 / int32
+        wcls = ["unit", "zero", "antisymmetric", "negative", "euclidean", "random"][ci % 6]
+        if wcls == "unit":
+            Wd = [1.0] * len(Ed)
+        elif wcls == "zero":
+            Wd = [0.0] * len(Ed)
+        elif wcls == "antisymmetric":
+            Wd = [float(1 + (a + 2 * b) % 3) * (1 if a < b else -1) for a, b in Ed]
+        elif wcls == "negative":
+            Wd = [-float(1 + (a + b) % 4) for a, b in Ed]
+        elif wcls == "euclidean":
+            Wd = [float(np.sqrt(sum((featl[a][j] - featl[b][j]) ** 2 for j in range(p)))) for a, b in Ed]
+        else:
+            Wd = [float(v) for v in rng_w.integers(-2, 3, size=len(Ed))]
+
         def mk():
             if Ed:
-                return WeightedGraph(n, np.array(Ed, dtype=np.int_), np.ones(len(Ed)))
+                return WeightedGraph(n, np.array(Ed, dtype=np.int32 if ci % 4 == 3 else np.int_), np.array(Wd))
             return WeightedGraph(n)
-        rep = {"graph": name, "n": n, "edges": [list(e) for e in Ed], "features": featl}
+
+        def mkfeat():
+            """the feature matrix in different representations"""
+            a = np.array(featl, dtype=float)
+            v = ci % 5
+            if v == 1:
+                return np.asfortranarray(a)
+            if v == 2:
+                return np.array(featl, dtype=np.int64)
+            if v == 3 and p == 1:
+                return a[:, 0].copy()
+            if v == 4:
+                big = np.zeros((2 * n, p + 2))
+                big[1::2, 1:p + 1] = a
+                return big[1::2, 1:p + 1]
+            return a
+        rep = {"graph": name, "n": n, "edges": [list(e) for e in Ed], "features": featl, "graph_weights": wcls, "weights": Wd}
         bucket = "ward:%s" % name
         ck.count(("ward", n, tuple(E), tuple(map(tuple, featl))), nontrivial=len(E) > 0, bucket=bucket)
         with warnings.catch_warnings():
             warnings.simplefilter("ignore")
             proxy = _NpProxy(np)
             hc.np = proxy
+            Gin, Fin = mk(), mkfeat()
+            Gkeep = (np.array(Gin.edges).copy(), np.array(Gin.weights).copy(), Gin.E, Gin.V)
+            Fkeep = Fin.copy()
             try:
-                t = hc.ward(mk(), np.array(featl, dtype=float))
+                t = hc.ward(Gin, Fin)
             except Exception as e:  # noqa
                 hc.np = np
                 n_raise += 1
                 if isinstance(e, TypeError) and "0-dimensional" in str(e):
                     ck.fail("ward/raises/int-of-1-element-array", "ward raised %s: %s (edges %s, features %s)" % (type(e).__name__, e, Ed, featl), rep)
                 else:
-                    ck.fail("ward/raises/%s" % type(e).__name__, "ward raised %s: %s" % (type(e).__name__, e), rep)
+                    ck.fail("ward/raises/%s/%s-weights" % (type(e).__name__, wcls), "ward raised %s: %s" % (type(e).__name__, e), rep)
                 if exact:
                     add("ward_raises %s %s %s %s %s" % (cnat(p), cnat(n), clist(["(%s,%s)" % (cnat(a), cnat(b)) for a, b in Ed]), cmat(featl),
                                                        clist([cnatl(x) for x in proxy.log])), ("ward", rep))
@@ -864,6 +968,20 @@ def hierarchical_section(ck):
         orc = clist([cnatl(x) for x in proxy.log])
         parents = [int(v) for v in t.parents]
         height = [float(v) for v in t.height]
+        # the inputs are left as they were, and a second run on the SAME graph object gives the same dendrogram
+        if not (np.array_equal(np.array(Gin.edges), Gkeep[0]) and np.array_equal(np.array(Gin.weights), Gkeep[1])
+                and Gin.E == Gkeep[2] and Gin.V == Gkeep[3] and np.array_equal(Fin, Fkeep)):
+            ck.fail("ward/mutates-input/%s-weights" % wcls, "ward changed the graph or the feature array it was given", rep)
+        elif ci % 3 == 0:
+            with warnings.catch_warnings():
+                warnings.simplefilter("ignore")
+                try:
+                    t2 = hc.ward(Gin, Fin)
+                    if [int(v) for v in t2.parents] != parents or [float(v) for v in t2.height] != height:
+                        ck.fail("ward/second-run-on-same-graph-differs", "ward(G, X) twice on the same objects: %s %s then %s %s"
+                                % (parents, height, list(t2.parents), list(t2.height)), rep)
+                except Exception as e:  # noqa
+                    ck.fail("ward/second-run-on-same-graph-raises", "%s: %s" % (type(e).__name__, e), rep)
         rep = dict(rep, parents=parents, height=height, argsort_results=proxy.log)
         if ci < 3 or name == "tied-costs" and n == 6:
             ck.sample({"call": "ward(G, features)", "n": n, "edges": [list(e) for e in Ed], "features": featl,
@@ -930,7 +1048,7 @@ def hierarchical_section(ck):
             with warnings.catch_warnings():
                 warnings.simplefilter("ignore")
                 try:
-                    tq = hc.ward_quick(mk(), np.array(featl, dtype=float))
+                    tq = hc.ward_quick(mk(), mkfeat())
                     pq, hq = [int(v) for v in tq.parents], [float(v) for v in tq.height]
                     ck.count(("wq", n, tuple(E), tuple(map(tuple, featl))), nontrivial=len(E) > 0, bucket="ward_quick")
                     dendrogram_oracle(ck, "ward_quick", n, E, featl, pq, hq, exact, False, True, dict(rep, parents=pq, height=hq))
